@@ -73,13 +73,13 @@ def check_rotvec(v, py):
     f(v, m)
     n = float(np.linalg.norm(v))
     want = expmap_closed(v)
-    # every entry to 100 ulp(1) absolutely (the code's (1 - cos n)/n^2 just above the threshold cancels
-    # ~10 digits of k2, an absolute effect of <= 1e-16 on the entries) ...
+    # every entry to 500 eps absolutely (observed worst 4 eps; (the code's (1 - cos n)/n^2 just above the threshold cancels
+    # ~10 digits of k2, an absolute effect of <= 1e-16 on the entries)) ...
     err = np.abs(m - want)
-    if (err > TOL).any():
+    if (err > 5 * TOL).any():
         i, j = np.unravel_index(np.argmax(err), (3, 3))
         return (f"mat_from_rotvec differs from the exponential map: entry ({i},{j}) off by {err[i, j]:.3e} "
-                f"(allowed {TOL:.3e}) at |v| = {n:.6e}")
+                f"(allowed {5 * TOL:.3e}) at |v| = {n:.6e}")
     # ... and the skew part (M - M^T)/2 = sin|v|/|v| [v x], which carries the small rotation itself,
     # relative to |v|
     sk = np.array([m[2, 1] - m[1, 2], m[0, 2] - m[2, 0], m[1, 0] - m[0, 1]]) / 2
@@ -162,7 +162,7 @@ def check_jacobian(rph, phi):
     plus = transform.mat_to_rph(Rotation.from_rotvec(-eps * phi).as_matrix() @ c)
     minus = transform.mat_to_rph(Rotation.from_rotvec(eps * phi).as_matrix() @ c)
     fd = np.array([((plus[k] - minus[k] + 180) % 360 - 180) / (2 * eps) for k in range(3)])
-    tol = 1e-4 * (1 + np.abs(d).max()) / cp ** 2
+    tol = 1e-6 * (1 + np.abs(d).max()) / cp ** 2
     if np.abs(fd - d).max() > tol:
         return (f"_phi_to_delta_rph(rph) phi = {list(map(float, d))} but the Euler angles of Rot(-eps phi) C "
                 f"change at the rate {list(map(float, fd))}")
@@ -173,7 +173,7 @@ def check_jacobian(rph, phi):
         e[k] = h
         lhs += (transform.mat_from_rph(rph + e) - transform.mat_from_rph(rph - e)) / (2 * h) * d[k]
     rhs = -skew(phi) @ c
-    if np.abs(lhs - rhs).max() > 1e-6 * (1 + np.abs(d).max()):
+    if np.abs(lhs - rhs).max() > 1e-8 * (1 + np.abs(d).max()):
         return (f"sum_k dC/d angle_k (T phi)_k != -[phi x] C: max entry difference "
                 f"{np.abs(lhs - rhs).max():.3e}")
     return None
